@@ -1,8 +1,10 @@
 import Ts.Lemmas.C10
 import Ts.Lemmas.C10b
 import Ts.Lemmas.C10c
+import Ts.Lemmas.C10d
 import Ts.Props.C06
 import Ts.Props.C05History
+import Ts.Props.C11
 /-!
 # C10 — re-transmission of an already applied PAT / PMT version is a no-op
 
@@ -39,7 +41,19 @@ The full-strength statement and its gaps:
   `C10_straddle_counterexample` — **F8**: a unit-start packet with fewer than 3 section bytes after
   the pointer bytes resets the dedup layer; the next ordinary repetition is re-applied.  Such
   packetisations are excluded from every theorem here by `RepPayload` → `WellFormedMux`'s clause
-  `minHeader kind ≤ (S.take m.k ++ m.tailBytes).length`, and from `C10_full` by `Realises`.
+  `minHeader kind ≤ (S.take m.k ++ m.tailBytes).length` (`minHeader .syntax = 8`: the starting packet
+  carries the whole 8-byte FIXED header, not just the 3-byte `table_id` / `section_length` part — so
+  first shares of 3..7 bytes are excluded as well; those set `ignore_rest` and are known finding F13's
+  shape, `Ts.Props.C11.short_first_share_never_applied`), and from `C10_full` by `Realises`.
+* `unapplied_start_records_version`, `unapplied_start_then_repeat_reapplied` — the general
+  "UNAPPLIED START" mechanism: in a filter quiescent at `v`, ANY accepted section start with another
+  `version_number` moves the version memory — also when that section is never applied (foreign
+  `table_id`, CRC failure, never completed) — and the next unchanged version-`v` table is re-applied.
+  Witnesses on the whole application: `foreign_table_between_repeats` (a private table on the PMT
+  PID between two PMT repetitions: SCOPE OBSERVATION, DESIGN 8.1b — C10's quantifier speaks of
+  repetitions of tables, not of foreign tables in between) and `damaged_copy_between_repeats` (a
+  damaged copy in between: known finding F12 of C04, outside C10's fault-free quantifier).  Both
+  shapes are outside `RepPacket` and outside `Realises`, like F8.
 -/
 namespace Ts.Props.C10
 open Ts Ts.Psi Ts.Spec Ts.Spec.SectionMux Ts.Lemmas.C03 Ts.Lemmas.C10 Ts.App Ts.Demux
@@ -111,9 +125,12 @@ payloads, trailing stuffing, extra continuation payloads) at any payload offsets
 chain does not panic and delivers NOTHING; the state is quiescent again, the inner buffer untouched.
 
 Scope, precisely.  (1) `hm : WellFormedMux .syntax S m` contains `8 ≤ (S.take m.k ++ m.tailBytes).length`:
-the starting packet carries the whole 8-byte fixed header.  A start carrying 0–2 section bytes is NOT
-covered and is NOT a no-op: it resets the chain (`short_start_resets`, known finding F8); a start
-carrying 3–7 bytes is not covered either (it sets `ignoreRest`; harmless, not proved here).
+the starting packet carries the whole 8-byte fixed header (`minHeader .syntax = 8`; NOT merely the
+3-byte `table_id` / `section_length` part).  A start carrying 0–2 section bytes is NOT covered and is
+NOT a no-op: it resets the chain (`short_start_resets`, known finding F8); a start carrying 3–7 bytes
+is not covered either: it sets `ignoreRest` and leaves the version memory alone — a no-op for a
+REPETITION, but the shape on which a NEW version is never applied (known finding F13,
+`Ts.Props.C11.short_first_share_never_applied`).
 (2) `hq : Quiescent v s` is about the field `lastVersion` of THIS filter instance; it says nothing about
 what was last applied on the PID by an earlier instance (known finding F9, `C10_full_false`). -/
 theorem dedup_blocks_equal_version (v : Nat) (s : St) (hq : Quiescent v s)
@@ -205,8 +222,9 @@ whose payload view is a repetition payload, or that has no payload): `consume` r
 registered set and a quiescent filter.
 
 Scope: per handler instance (`hq` speaks of this instance's `lastVersion`); `hp : RepPacket` admits
-only unit starts with at least 8 section bytes in the starting packet (`RepPayload` →
-`WellFormedMux`), which excludes the resetting short start of F8. -/
+only unit starts with at least 8 section bytes — the 8-byte fixed header — in the starting packet
+(`RepPayload` → `WellFormedMux`), which excludes the resetting short start of F8 (0..2 bytes) and the
+3..7-byte first shares of F13's shape. -/
 theorem pat_handler_noop (v : Nat) (s : St) (reg : List Nat) (hq : Quiescent v s) (c : Ctx) (pk : Pk)
     (hp : RepPacket v pk.bytes) :
     ∃ s', App.consume (.pat s reg) c pk = .ok (.pat s' reg, c, [])
@@ -449,8 +467,8 @@ theorem legalMux_iff (kind : Kind) (S : Bytes) (m : Mux) :
 /-! ### F8: a short start resets the de-duplication -/
 
 /-- **F8 mechanism.**  `q`: the payload of a unit-start packet with fewer than 3 bytes after its
-pointer bytes (the 3-byte section header straddles two packets, or the pointer reaches the end of
-the payload).  From ANY state satisfying the buffer invariant (C03; in particular every quiescent
+pointer bytes (the 3-byte `table_id` / `section_length` part of the section header straddles two
+packets, or the pointer reaches the end of the payload).  From ANY state satisfying the buffer invariant (C03; in particular every quiescent
 state), `SectionPacketConsumer::consume` on the `table` chain does not panic, delivers at most the one
 section its pointer bytes completed — nothing at all when the buffer layer was `Complete` — and
 leaves the chain RESET: `lastVersion = none`, buffer empty and `Complete`.  The dedup layer has
@@ -503,9 +521,10 @@ theorem short_start_then_repeat_reapplied (v : Nat) (s : St) (hq : Quiescent v s
 
 /-- **which hypothesis excludes F8.**  A short start is never a repetition payload: `RepPayload`
 demands a `WellFormedMux`, whose clause `minHeader .syntax = 8 ≤ (S.take m.k ++ m.tailBytes).length`
-puts at least 8 section bytes behind the pointer bytes.  Hence no theorem of this file whose
-hypothesis is `RepPayload` / `RepPacket` (and no history admitted by `Realises`) says anything about
-a stream containing such a packet. -/
+puts at least 8 section bytes — the whole 8-byte fixed header — behind the pointer bytes.  (The same
+clause excludes first shares of 3..7 bytes, which do not reset but set `ignore_rest`: F13's shape.)
+Hence no theorem of this file whose hypothesis is `RepPayload` / `RepPacket` (and no history admitted
+by `Realises`) says anything about a stream containing such a packet. -/
 theorem short_start_not_repPayload (v : Nat) (q : Pl) (hus : q.us = true) (hshort : ShortStart q.bytes) :
     ¬ RepPayload v q := by
   rintro (h | ⟨S, m, _, _, _, hm, _, hb⟩)
@@ -622,7 +641,8 @@ theorem C10_straddle_counterexample' :
 /-- **C10 at full strength, over whole histories.**  `evs`: any well-formed history of applied PAT /
 PMT versions, elementary-stream packets and table repetitions (`Spec.RoutingHistory`); `pks`: any
 packets realising it (`Realises`: every table transmission intact, in a well-formed packetisation —
-which excludes F8's short starts), run from `Demultiplex::new` to `(t, c)`.  If the table LAST APPLIED
+at least the 8-byte fixed header in the starting packet, which excludes F8's short starts; no damaged
+copies and no foreign tables on table PIDs), run from `Demultiplex::new` to `(t, c)`.  If the table LAST APPLIED
 on PID `p` IN THE HISTORY had version `v` (`lastAppliedOn`: the last `patApplied` if `p = 0`, the last
 `pmtApplied p` otherwise — no reference to any handler's state) and `p` still carries tables
 (`tablePid`), then any run `reps` of repetition packets of version `v` on `p` (any number, each a
@@ -687,7 +707,8 @@ its continuity counter and open/closed PES state — is untouched, slot `p` hold
 
 What `Realises` contributes (and hides): between the applications, every packet on a table PID is a
 repetition packet in the sense of `RepPacket` (or carries no payload / a continuation), so no short
-start (F8) occurs.  What the extra hypothesis contributes: the handler instance that applied `ev` is
+start (F8; fewer than the 8 fixed header bytes in the starting packet), no damaged copy (F12) and no
+foreign table (DESIGN 8.1b; `unapplied_start_then_repeat_reapplied`) occurs.  What the extra hypothesis contributes: the handler instance that applied `ev` is
 still the one in slot `p` (F9). -/
 theorem C10_partial (cfg : App.Cfg) (hscript : cfg.script = []) (pre post : List Event) (ev : Event)
     (pks : List Pk) (p v : Nat) (reps : List Pk) (t : Tab Handler) (c : Ctx)
@@ -732,7 +753,16 @@ theorem C10_partial' (cfg : App.Cfg) (evs : List Event) (pks : List Pk) (p v : N
   exact ⟨t', a, b⟩
 
 /-- **the gap at history level is EXACTLY F9**: whenever the conclusion of `C10_full` fails under its
-hypotheses, a PAT version listing `p` was applied after the last table applied on `p` -/
+hypotheses, a PAT version listing `p` was applied after the last table applied on `p`.
+
+"Exactly" is RELATIVE to the hypotheses `hre : Realises …` and `hreps : … RepPacket …`.  `Realises`
+admits on table PIDs only intact transmissions of the history's tables and their repetitions, every
+one in a `WellFormedMux` packetisation.  Outside it — and therefore NOT covered by "the only gap" —
+lie: starting packets with fewer than 8 section bytes (F8 for 0..2 bytes); DAMAGED copies between
+repetitions (`damaged_copy_between_repeats`, known finding F12 of C04); FOREIGN tables (another
+`table_id` with its own version) between repetitions (`foreign_table_between_repeats`, scope
+observation DESIGN 8.1b).  On each of these the unchanged table IS re-applied
+(`short_start_then_repeat_reapplied`, `unapplied_start_then_repeat_reapplied`). -/
 theorem C10_gap_is_F9 (cfg : App.Cfg) (evs : List Event) (pks : List Pk) (p v : Nat) (reps : List Pk)
     (t : Tab Handler) (c : Ctx) (hscript : cfg.script = []) (hwf : WF initRoute evs)
     (hre : Realises initRoute evs pks) (hlast : lastAppliedOn p evs = some v)
@@ -971,5 +1001,256 @@ example :
           ++ bigPkt2 3 ++ bigPkt1 4 ++ esContPkt ++ bigPkt2 5])
       = some (bigConstructs, [(2, 0), (2, 1), (2, 2)], .pmt 0x100 1 [0x101], .pes 2) :=
   ⟨bigPmt_run, bigPmt_rep_run⟩
+
+/-! ## Unapplied starts between repetitions (second review round)
+
+The de-duplication layer records `version_number` when a section STARTS
+(`Ts.Props.C11.start_records_version`), and keys on nothing else.  So ANY accepted start with another
+version on the PID moves the version memory of a quiescent filter, whether or not that section is ever
+applied, and the next transmission of the unchanged table is applied again. -/
+
+/-- **Unapplied start, mechanism.**  `s`: a filter quiescent at `v` (version `v` applied, buffer
+`Complete`).  One unit-start payload `pointer_field :: pre ++ D` whose section start `D` is ACCEPTED
+(`hok : startOk Psi.table D`: section-syntax indicator set, at least the 8 fixed header bytes in this
+packet, `section_length ≤ 1021` — `Ts.Props.C11.accepted_start_iff`; nothing about `table_id`,
+completeness or CRC) and whose `version_number` differs from `v` (`hver`); then ANY continuation
+payloads `conts` (none, the right ones, wrong ones).  The run does not panic, and afterwards the
+filter remembers `versionOf D` and no longer `v`; the buffer invariant holds.
+
+Nothing is assumed or concluded about whether `D`'s section is APPLIED: the statement holds in
+particular when it is not — the section has another `table_id` (it passes the CRC layer and is
+ignored by the table processor: `Ts.Props.C11.crc_gate_pat_other_table_ignored`), its CRC fails
+(`Ts.Props.C04`: gate blocks), or it is never completed.  The deliveries `ds` are whatever `D` and
+`conts` complete; `pre` completes nothing because `s.remaining = none`. -/
+theorem unapplied_start_records_version (v : Nat) (s : St) (hq : Quiescent v s)
+    (pre D : Bytes) (off0 : Nat) (hp : pre.length < 256) (hok : startOk Psi.table D = true)
+    (hver : versionOf D ≠ v)
+    (conts : List Pl) (husc : ∀ q ∈ conts, q.us = false) (hnec : ∀ q ∈ conts, 1 ≤ q.bytes.length) :
+    ∃ s1 ds,
+      runPl Psi.table s (⟨true, UInt8.ofNat pre.length :: (pre ++ D), off0⟩ :: conts) = .ok (s1, ds)
+      ∧ s1.lastVersion = some (versionOf D) ∧ s1.lastVersion ≠ some v ∧ PsiInv .syntax s1 := by
+  obtain ⟨sa, da, ha, hva, hia⟩ :=
+    Ts.Props.C11.start_records_version_payload s (quiescent_inv v s hq) pre D off0 hp hok
+  obtain ⟨s1, dc, hc, hvc, hic⟩ := Ts.Props.C11.continuation_keeps_version conts sa hia husc hnec
+  refine ⟨s1, da ++ dc, ?_, by rw [hvc, hva], ?_, hic⟩
+  · simp only [runPl, ha, R.ok_bind, hc]; rfl
+  · rw [hvc, hva]
+    intro e
+    injection e with e
+    exact hver e
+
+/-- **Unapplied start, then the unchanged table: RE-APPLIED.**  Setting of
+`unapplied_start_records_version`; then an intact well-formed transmission (`hm : WellFormedMux`: at
+least the 8 fixed header bytes in the starting packet) of ANY well-formed section `S` with
+`version_number = v` — the version the filter was quiescent at —, at least 12 bytes, valid CRC.
+Then `S` IS delivered, exactly once, after at most what its pointer bytes complete of the buffer
+the in-between start may have left (`(preSpec … s1 m.pre).2`, empty when that section was completed
+or `pointer_field = 0`); `S` passes the CRC layer in both builds, i.e. it reaches
+`PatProcessor::section` / `PmtProcessor::section` and is applied again although the table did not
+change; the filter is quiescent at `v` again.  Contrast `dedup_blocks_equal_version`: without the
+in-between start the same transmission delivers NOTHING. -/
+theorem unapplied_start_then_repeat_reapplied (v : Nat) (s : St) (hq : Quiescent v s)
+    (pre D : Bytes) (off0 : Nat) (hp : pre.length < 256) (hok : startOk Psi.table D = true)
+    (hver : versionOf D ≠ v)
+    (conts : List Pl) (husc : ∀ q ∈ conts, q.us = false) (hnec : ∀ q ∈ conts, 1 ≤ q.bytes.length)
+    (S : Bytes) (hS : WellFormedSection .syntax S) (h12 : 12 ≤ S.length)
+    (hcrc : Ts.CrcSpec.crc S = 0) (hv : versionOf S = v)
+    (m : Mux) (hm : WellFormedMux .syntax S m) (off : Nat) (rest : List Pl)
+    (hus : ∀ q ∈ rest, q.us = false) (hrest : rest.map (·.bytes) = m.rest) :
+    ∃ s1 ds sfin,
+      runPl Psi.table s (⟨true, UInt8.ofNat pre.length :: (pre ++ D), off0⟩ :: conts) = .ok (s1, ds)
+      ∧ s1.lastVersion = some (versionOf D)
+      ∧ runPl Psi.table s1 (⟨true, m.first S, off⟩ :: rest)
+          = .ok (sfin, (preSpec Psi.table s1 m.pre).2
+              ++ [⟨S, if m.k = S.length then some (off + 1 + m.pre.length) else none⟩])
+      ∧ (preSpec Psi.table s1 m.pre).2.length ≤ 1
+      ∧ runPl Psi.table s ((⟨true, UInt8.ofNat pre.length :: (pre ++ D), off0⟩ :: conts)
+            ++ (⟨true, m.first S, off⟩ :: rest))
+          = .ok (sfin, ds ++ ((preSpec Psi.table s1 m.pre).2
+              ++ [⟨S, if m.k = S.length then some (off + 1 + m.pre.length) else none⟩]))
+      ∧ (∀ b, Psi.crcPass b S = .ok true)
+      ∧ Quiescent v sfin := by
+  obtain ⟨s1, ds, h1, hv1, hne1, hi1⟩ :=
+    unapplied_start_records_version v s hq pre D off0 hp hok hver conts husc hnec
+  obtain ⟨sfin, h2, h3, h4, h5⟩ := Ts.Props.C11.damage_then_new_version_applied_partial S hS h12 hcrc m hm
+    s1 hi1 (by rw [hv]; exact hne1) off rest hus hrest
+  refine ⟨s1, ds, sfin, h1, hv1, h2, h3, ?_, h4, by rw [← hv]; exact h5⟩
+  rw [runPl_append, h1]
+  simp only [R.ok_bind, h2]
+
+/-- hypotheses of the two theorems are satisfiable, on the filter-level content of the witnesses
+below: a PMT filter that has applied version 0; (a) the private `table_id = 0x80` section, version 5,
+valid CRC, complete in its packet — delivered, passes the CRC layer, has another `table_id`;
+(b) the PMT copy with one flipped version bit — delivered, FAILS the CRC layer; (c) only the first 8
+bytes of a version-1 section, never completed — nothing delivered.  In all three cases the next
+intact PMT v0 (`pmtSecV0`, `pointer_field = 0`, one packet) is delivered again. -/
+example :
+    (∃ s1 sfin, runPl Psi.table { lastVersion := some 0 }
+          [⟨true, 0x00 :: (privSecV5 ++ List.replicate 167 0xff), 4⟩] = .ok (s1, [⟨privSecV5, some 5⟩])
+        ∧ s1.lastVersion = some 5 ∧ Psi.crcPass false privSecV5 = .ok true ∧ byteD privSecV5 0 ≠ 2
+        ∧ runPl Psi.table s1 [⟨true, (muxOf pmtSecV0).first pmtSecV0, 4⟩] = .ok (sfin, [⟨pmtSecV0, some 5⟩])
+        ∧ Quiescent 0 sfin)
+    ∧ (∃ s1 sfin, runPl Psi.table { lastVersion := some 0 }
+          [⟨true, 0x00 :: (pmtSecV0Damaged ++ List.replicate 162 0xff), 4⟩]
+            = .ok (s1, [⟨pmtSecV0Damaged, some 5⟩])
+        ∧ s1.lastVersion = some 1 ∧ Psi.crcPass false pmtSecV0Damaged = .ok false
+        ∧ runPl Psi.table s1 [⟨true, (muxOf pmtSecV0).first pmtSecV0, 4⟩] = .ok (sfin, [⟨pmtSecV0, some 5⟩])
+        ∧ Quiescent 0 sfin)
+    ∧ (∃ s1 sfin, runPl Psi.table { lastVersion := some 0 }
+          [⟨true, 0x00 :: pmtSecV0Damaged.take 8, 4⟩] = .ok (s1, [])
+        ∧ s1.lastVersion = some 1
+        ∧ runPl Psi.table s1 [⟨true, (muxOf pmtSecV0).first pmtSecV0, 4⟩] = .ok (sfin, [⟨pmtSecV0, some 5⟩])
+        ∧ Quiescent 0 sfin) := by
+  obtain ⟨w1, w2, w3, w4, w5⟩ := pmtSecV0_facts
+  have key : ∀ (D : Bytes) (vD : Nat), startOk Psi.table D = true → versionOf D = vD → vD ≠ 0 →
+      ∃ s1 ds sfin, runPl Psi.table { lastVersion := some 0 } [⟨true, 0x00 :: D, 4⟩] = .ok (s1, ds)
+        ∧ s1.lastVersion = some vD
+        ∧ runPl Psi.table s1 [⟨true, (muxOf pmtSecV0).first pmtSecV0, 4⟩] = .ok (sfin, [⟨pmtSecV0, some 5⟩])
+        ∧ Quiescent 0 sfin := by
+    intro D vD hok hvD hne
+    obtain ⟨s1, ds, sfin, a1, a2, a3, _, _, _, a7⟩ := unapplied_start_then_repeat_reapplied 0
+      { lastVersion := some 0 } ⟨rfl, rfl⟩ [] D 4 (by decide) hok (by rw [hvD]; exact hne) [] (by simp)
+      (by simp) pmtSecV0 w1 (by rw [w2]; decide) w3 w4 (muxOf pmtSecV0) w5 4 [] (by simp) rfl
+    refine ⟨s1, ds, sfin, a1, by rw [a2, hvD], ?_, a7⟩
+    rw [a3]
+    have e1 : (muxOf pmtSecV0).pre = [] := rfl
+    have e2 : (muxOf pmtSecV0).k = pmtSecV0.length := rfl
+    rw [e1, e2]
+    simp [preSpec]
+  refine ⟨?_, ?_, ?_⟩
+  · obtain ⟨s1, ds, sfin, a1, a2, a3, a4⟩ := key _ 5 between_startOk.1 between_startOk.2.2.1 (by decide)
+    have e : runPl Psi.table { lastVersion := some 0 }
+        [⟨true, 0x00 :: (privSecV5 ++ List.replicate 167 0xff), 4⟩]
+        = .ok ({ lastVersion := some 5 }, [⟨privSecV5, some 5⟩]) := by decide +kernel
+    rw [e] at a1
+    cases a1
+    exact ⟨_, sfin, e, a2, by decide +kernel, by decide +kernel, a3, a4⟩
+  · obtain ⟨s1, ds, sfin, a1, a2, a3, a4⟩ := key _ 1 between_startOk.2.1 between_startOk.2.2.2 (by decide)
+    have e : runPl Psi.table { lastVersion := some 0 }
+        [⟨true, 0x00 :: (pmtSecV0Damaged ++ List.replicate 162 0xff), 4⟩]
+        = .ok ({ lastVersion := some 1 }, [⟨pmtSecV0Damaged, some 5⟩]) := by decide +kernel
+    rw [e] at a1
+    cases a1
+    exact ⟨_, sfin, e, a2, pmtSecV0Damaged_facts.2.2.2.2.2, a3, a4⟩
+  · obtain ⟨s1, ds, sfin, a1, a2, a3, a4⟩ := key (pmtSecV0Damaged.take 8) 1 (by decide +kernel)
+      (by decide +kernel) (by decide)
+    have e : runPl Psi.table { lastVersion := some 0 } [⟨true, 0x00 :: pmtSecV0Damaged.take 8, 4⟩]
+        = .ok ({ lastVersion := some 1, buf := pmtSecV0Damaged.take 8, remaining := some 13 }, []) := by
+      decide +kernel
+    rw [e] at a1
+    cases a1
+    exact ⟨_, sfin, e, a2, a3, a4⟩
+
+/-- **Witness (a): a FOREIGN table between two repetitions** — reviewer case `N1`
+(`/tmp/pr/rev2e_cases.txt`, `observations/`), whole application (`runApp {}` = `demux b0t0`), on
+byte lists.  `observe10` = (`construct` requests with tags, ES callbacks as (tag, kind), slot 0x100,
+slot 0x101).
+
+* control `foreignCtlBytes` (PAT v0, PMT v0 on 0x100, ES unit start on 0x101, PMT v0, PMT v0, ES
+  continuation): three requests `ByPid(0)`→0, `Pmt(0x100,1)`→1, `Stream(…0x101…)`→2; consumer 2 sees
+  `start`, `begin`, `continue`; slot 0x101 keeps the PES filter tagged 2.
+* `foreignPrefixBytes` (… ES unit start, then the private section `privSecV5` — `table_id = 0x80`,
+  section syntax, version 5, VALID CRC — on 0x100): nothing requested; the private table itself is
+  ignored by the PMT processor.
+* `foreignBytes` (… then PMT v0 again, ES continuation): the unchanged PMT is RE-APPLIED — the
+  stream request is issued a second time, `Stream(…0x101…)`→3 — and slot 0x101 now holds the fresh PES
+  filter tagged 3: the open PES packet of consumer 2 is orphaned, its continuation goes to a consumer
+  that has not started.
+Identical to the output of the real code on these bytes.
+
+SCOPE OBSERVATION (DESIGN.md 8.1b), NOT a known finding: C10's quantifier speaks of "any number of
+repetitions of any table … across version changes back and forth", not of a foreign table on the
+same PID between them; every theorem of this file excludes the shape through `RepPacket` /
+`Realises` (the private section has version 5 ≠ 0, so its packet is not a `RepPacket 0`).  The
+mechanism is `unapplied_start_then_repeat_reapplied`. -/
+theorem foreign_table_between_repeats :
+    observe10 (runApp {} [foreignCtlBytes])
+      = some ([(.byPid 0, 0), (.pmt 0x100 1, 1), (.stream 0x100 0x1b 0x101 0x101 [] [], 2)],
+          [(2, 0), (2, 1), (2, 2)], .pmt 0x100 1 [0x101], .pes 2)
+    ∧ observe10 (runApp {} [foreignPrefixBytes])
+      = some ([(.byPid 0, 0), (.pmt 0x100 1, 1), (.stream 0x100 0x1b 0x101 0x101 [] [], 2)],
+          [(2, 0), (2, 1)], .pmt 0x100 1 [0x101], .pes 2)
+    ∧ observe10 (runApp {} [foreignBytes])
+      = some ([(.byPid 0, 0), (.pmt 0x100 1, 1), (.stream 0x100 0x1b 0x101 0x101 [] [], 2),
+           (.stream 0x100 0x1b 0x101 0x101 [] [], 3)],
+          [(2, 0), (2, 1)], .pmt 0x100 1 [0x101], .pes 3)
+    ∧ (WellFormedSection .syntax privSecV5 ∧ Ts.CrcSpec.crc privSecV5 = 0 ∧ versionOf privSecV5 = 5
+        ∧ byteD privSecV5 0 = 0x80)
+    ∧ ¬ RepPacket 0 (pmtPkt 1 privSecV5) := by
+  refine ⟨foreign_ctl_run, foreign_prefix_run, foreign_run,
+    ⟨privSecV5_facts.1, privSecV5_facts.2.2.1, privSecV5_facts.2.2.2.1, privSecV5_facts.2.2.2.2⟩, ?_⟩
+  rintro ⟨_, h⟩
+  rcases h _ between_plOf.1 with h | ⟨S, m, hS, h8, hv, hm, _, hb⟩
+  · cases h
+  · -- the first share of a well-formed packetisation has the section's version
+    obtain ⟨hk, hmin, hcase⟩ := mux_case S m hm
+    have hver := share_version S m.k m.tailBytes h8 hk hmin hcase
+    have hfl := first_length S m
+    have hlt : m.pre.length < 256 := by have := hm.2.2.1.2; omega
+    have hb0 : byteD (m.first S) 0 = m.pre.length := by
+      unfold Mux.first
+      rw [byteD_cons_zero, UInt8.toNat_ofNat']
+      exact Nat.mod_eq_of_lt hlt
+    have hp0 : m.pre = [] := by
+      have : byteD (m.first S) 0 = 0 := by rw [← hb]; rfl
+      rw [hb0] at this
+      exact List.eq_nil_of_length_eq_zero this
+    have hsh : S.take m.k ++ m.tailBytes = privSecV5 ++ List.replicate 167 0xff := by
+      have : m.first S = 0x00 :: (privSecV5 ++ List.replicate 167 0xff) := hb.symm
+      unfold Mux.first at this
+      rw [hp0] at this
+      simpa using this
+    rw [hsh, ← versionOf_eq, between_startOk.2.2.1, hv] at hver
+    exact absurd hver (by decide)
+
+/-- **Witness (b): a DAMAGED copy between two repetitions** — known finding **F12** (C04) on the PMT
+PID (reviewer case `N1b`; F12's probe has the same shape on the PAT PID), whole application, on byte
+lists.  `pmtSecV0Damaged` = `pmtSecV0` with ONE flipped bit of `version_number` (bit 46), CRC bytes
+unchanged, so its CRC fails and the gate (C04) keeps it from the PMT processor:
+
+* `damagedPrefixBytes` (PAT v0, PMT v0, ES unit start, the damaged copy): nothing requested;
+* `damagedBytes` (… then the intact PMT v0, ES continuation): the intact, UNCHANGED PMT is
+  re-applied — `Stream(…0x101…)`→3, slot 0x101 replaced by the PES filter tagged 3 mid-packet;
+* control `foreignCtlBytes` (an undamaged copy in its place): nothing re-requested
+  (`foreign_table_between_repeats`, first conjunct).
+Identical to the output of the real code on these bytes.
+
+This is KNOWN FINDING F12, recorded against C04 ("no section whose CRC fails ever causes a handler
+to be requested, replaced or removed"): it needs a fault, and C10 quantifies over fault-free
+histories ("histories, inputs": repetitions of tables), so it is outside C10's quantifier and outside
+`Realises`.  The mechanism is `unapplied_start_then_repeat_reapplied`. -/
+theorem damaged_copy_between_repeats :
+    pmtSecV0Damaged = Ts.CrcSpec.flipBit pmtSecV0 46
+    ∧ Psi.crcPass false pmtSecV0Damaged = .ok false
+    ∧ observe10 (runApp {} [damagedPrefixBytes])
+      = some ([(.byPid 0, 0), (.pmt 0x100 1, 1), (.stream 0x100 0x1b 0x101 0x101 [] [], 2)],
+          [(2, 0), (2, 1)], .pmt 0x100 1 [0x101], .pes 2)
+    ∧ observe10 (runApp {} [damagedBytes])
+      = some ([(.byPid 0, 0), (.pmt 0x100 1, 1), (.stream 0x100 0x1b 0x101 0x101 [] [], 2),
+           (.stream 0x100 0x1b 0x101 0x101 [] [], 3)],
+          [(2, 0), (2, 1)], .pmt 0x100 1 [0x101], .pes 3) :=
+  ⟨pmtSecV0Damaged_facts.1, pmtSecV0Damaged_facts.2.2.2.2.2, damaged_prefix_run, damaged_run⟩
+
+/-! ### non-vacuity of `C10_gap_is_F9` -/
+
+/-- `C10_gap_is_F9` APPLIED to probe F9 (history = its first four packets, repetition = the fifth):
+all hypotheses hold — in particular `hfail`, the conclusion of `C10_full` fails there (the repeated
+PMT v0 appends a `construct` event) — and the theorem produces the PAT in between. -/
+example : RebuiltSinceLast 0x100 f9Hist := by
+  obtain ⟨t, c, -, hrun, -, -, -, hlog, -⟩ :=
+    Ts.Props.C05History.routing_refines {} rfl f9Hist f9Pks f9_wf f9_realises
+  refine C10_gap_is_F9 {} f9Hist f9Pks 0x100 0 [f9Rep] t c rfl f9_wf f9_realises
+    (by decide +kernel) (by decide +kernel) hrun
+    (by intro pk hm; rw [List.mem_singleton] at hm; subst hm; exact ⟨rfl, rfl, pmtPkt_rep 1 (by decide)⟩) ?_
+  rintro ⟨t', c', hrep, hcs, -⟩
+  have hall : pushModel App.sem (App.init {}) (f9Pks ++ [f9Rep]) = .ok (t', c') := by
+    rw [Ts.Props.C06.push_refines_spec] at hrun hrep ⊢
+    rw [pushSpec_append_aux, hrun]
+    exact hrep
+  obtain ⟨t2, c2, hr2, hc2, -⟩ := observe10_some _ _ f9_run
+  rw [Ts.Props.C05History.runApp_one {} f9Bytes _ f9_frame, hall] at hr2
+  cases hr2
+  rw [hcs, hlog, f9_requests] at hc2
+  exact absurd hc2 (by decide)
 
 end Ts.Props.C10
